@@ -2,6 +2,7 @@
 timeline vs QutipEmulator.get_hamiltonian at every integer nanosecond of every explored program)."""
 from __future__ import annotations
 
+import itertools
 import warnings
 
 import numpy as np
@@ -28,7 +29,7 @@ def ham(ctx):
     if ctx.exc is not None or not ctx.post.flags["building"]:
         return []
     snap, w = ctx.post, ctx.world
-    if any(not c.slots for c in snap.channels.values()):
+    if all(not c.slots for c in snap.channels.values()):
         return []
     T = max(c.end for c in snap.channels.values())
     if T == 0:
@@ -67,6 +68,14 @@ def ham(ctx):
             if d > worst[0]:
                 worst = (d, t)
             herm = max(herm, float(np.abs(Hi - Hi.conj().T).max()))
+        # the same emulator object after a history of configurations: once no local noise is configured any more, the
+        # Hamiltonian is again the documented one with the PROGRAMMED values (nothing of an earlier noisy configuration stays)
+        if not out and worst[0] <= TOL and herm <= 1e-12:
+            ts = sorted({0, T // 3, T // 2, T - 1} | ({worst[1]} if worst[1] is not None else set()))
+            for hist, d, t in _config_histories(sim, ts, lambda t: refham.hamiltonian(
+                    t, view, bases, pos, level=level, c3=3700.0, in_xy=in_xy, mag=snap.flags["mag"], masked=masked, mask_end=mask_end,
+                    qids=w.qids)[0], ctx):
+                out.append((f"C05:hamiltonian-differs-after-configuration-history:{hist}", f"max |H_emu - H_doc| = {d:.6g} at t={t} ns"))
         ctx.act["programs_compared"] += 1
         ctx.act["times_compared"] += T
         if len(bases) > 1:
@@ -85,6 +94,34 @@ def ham(ctx):
             out.append((f"C05:hamiltonian-differs:{'XY' if in_xy else 'ising'}:{sit}",
                         f"max |H_emu - H_doc| = {worst[0]:.6g} at t={worst[1]} ns (T={T}, bases {bases})"))
     return out
+
+
+def _config_histories(sim, ts, ref, ctx):
+    """[noisy configuration] then [a configuration without local noise] on one emulator; yields (history, diff, t) on a mismatch."""
+    from pulser_simulation import SimConfig
+
+    noisy = {"amplitude": dict(noise="amplitude", amp_sigma=0.3), "doppler": dict(noise="doppler", temperature=2000.0),
+             "spam-eta": dict(noise="SPAM", eta=0.45, epsilon=0.0, epsilon_prime=0.0)}
+    quiet = {"reset_config": None, "set_config-default": {}}
+    Href = {t: ref(t) for t in ts}
+    np.random.seed(20261003)  # the noisy configurations draw from numpy's global generator: same draws in every run and replay
+    for (nn, nk), (qn, qk) in itertools.product(noisy.items(), quiet.items()):
+        try:
+            sim.set_config(SimConfig(runs=2, samples_per_run=1, **nk))
+        except Exception:
+            continue  # this noise is not available for the sequence's basis
+        ctx.act["config_histories"] += 1
+        if qk is None:
+            sim.reset_config()
+        else:
+            sim.set_config(SimConfig(**qk))
+        worst = (0.0, None)
+        for t in ts:
+            d = float(np.abs(Href[t] - sim.get_hamiltonian(t).full()).max())
+            if d > worst[0]:
+                worst = (d, t)
+        if worst[0] > TOL:
+            yield f"{nn}-then-{qn}", worst[0], worst[1]
 
 
 MONITORS = [ham]
@@ -122,6 +159,8 @@ def plan(tier, seed):
         (corner("unit8", prefix=[("config_dmm", "m2", "dmm_0"), ("config_dmm", "m1", "dmm_0"), ("declare", "g", "rydberg_global")],
                 qubits=3, name="two-maps-on-one-dmm-id"),
          A.render(l=None, dmm="dmm_0", eom=False) + [("add_dmm", ["C", 40, -0.75], "dmm_0_1", "no-delay")], d),
+        # a spare Local channel declared first and never targeted (no slot at all) next to the channels that drive the atoms
+        (corner("unit8", prefix=[("declare", "s", "rydberg_local")] + A.GR, qubits=3, name="unit8-spare-untargeted-channel-first"), A.render(l="r"), d),
         # qubit ids that are integers / strings whose sorted or index order differs from the register order
         (corner("unit8", prefix=A.GR, qubits=3, qid_alias=INTPERM, name="unit8-int-ids-out-of-order"), A.render(l="r"), d),
         (corner("unit", prefix=XYT, qubits=3, qid_alias=INTPERM, name="xy-int-ids-out-of-order"), SHORT, d),
